@@ -165,6 +165,6 @@ CHECKS['C20'] = dict(
          'inside that constructor among all functions reachable from prayer_times_dt; every linear form that combines the longitude with the '
          'sidereal time and the right ascension (transit fraction, hour angles, topocentric hour angle) is k*(sidereal + longitude - RA). '
          'The 10-second agreement, the validity clause and the ephemeris itself are numeric relations between outputs: not decided.'
-         ' R20.5: no thread-local, static or lock-protected state on the computation path (the result is a function of the arguments). Includes the Julian-Day rule, the seam hygiene R1.2 and the clock-time conversion rules R11.4/R11.7.',
+         ' R20.5: no thread-local, static or lock-protected state on the computation path (the result is a function of the arguments). Includes the Julian-Day rule, the seam hygiene R1.2 and the clock-time conversion rules R11.4/R11.7. R20.6: the rise/set day fraction is wrapped into [0,1) of the clock day after the sidereal time of local midnight (which moves with the GMT offset) has entered it - a GMT change that carries sunrise/sunset across clock midnight selects the neighbouring day\'s event (1 h + 112 s at lat 45, lon 0, GMT -6.5 -> -5.5, 2023-03-20): a genuine finding on the unchanged tree, listed in KNOWN_FINDINGS.txt (two KNOWN-FINDING lines, exit 0).',
     note=ASSUME + '; east longitudes positive; sidereal-time / right-ascension fields recognised from the per-day constructor (360.98564736629 deg/day; atan2)',
     technique='polynomial normal forms (coefficient extraction) on reconstructed terms + who-may-call query on the call graph')
